@@ -46,9 +46,7 @@ Definition clause_output (c : case) (r : rres) : bool :=
   | _ => true
   end.
 
-(* known class F7 (INPUT only): a @use / @forward url of the world is not spelled canonically *)
-Definition known_K1 (c : case) : bool :=
-  existsb (fun nb => existsb (fun d => match d with DLoad _ u => spelled u | _ => false end) (snd nb)) (c_world c).
+(* (class K1 = spelled module url, F7, was closed by fix d80c9be: no escape is left for the graph clauses) *)
 
 Definition b2z (b : bool) : Z := if b then 1%Z else 0%Z.
 
@@ -58,7 +56,7 @@ Definition ref_class (r : rres) : Z :=
 (* [corr; once; output; known class; reference class; number of modules executed by the reference] *)
 Definition run (c : case) : list Z :=
   let r := reference c in
-  [ corr c; b2z (clause_once c r); b2z (clause_output c r); (if known_K1 c then 1 else 0)%Z; ref_class r;
+  [ corr c; b2z (clause_once c r); b2z (clause_output c r); 0%Z; ref_class r;
     match r with RefDone _ _ ex => Z.of_nat (List.length ex) | _ => 0%Z end ].
 
 (* ---- the clause "every user sees the same module variables" (checked on the implementation only;
